@@ -119,6 +119,100 @@ def mem_race_c__K__(oi: int, n1: int, n2: int, r1: int, r2: int, first: int, k1:
         return race("mem", __K__, oi, [(n1, RID[r1]), (n2, RID[r2])], first, [k1, k2])
 '''
 
+POLL = r'''
+BASE_NAMES = ["get_invocations_to_run", "get_blocking_invocations_to_run", "get_additional_invocations_to_run",
+              "reroute_invocations", "set_invocation_status"]
+ALL = set(BASE_NAMES + MEM_NAMES + ["retrieve_invocation"])
+def install_poll(drop_begin=False):
+    mo.threading = coop.CoopThreading()
+    coop.install_sqlite_standin()
+    POINTS.update(coop.yieldify(bo.BaseOrchestrator, BASE_NAMES, all_names=ALL))
+    POINTS.update(coop.yieldify(mo.MemOrchestrator, MEM_NAMES, all_names=ALL))
+    POINTS.update(coop.yieldify(mb.MemBroker, ["retrieve_invocation"], all_names=ALL))
+    drop = None
+    if drop_begin:
+        import ast
+        def drop(st):
+            return isinstance(st, ast.Expr) and isinstance(st.value, ast.Call) and any(
+                isinstance(a, ast.Constant) and a.value == "BEGIN IMMEDIATE" for a in st.value.args)
+    coop.yieldify(so.SQLiteOrchestrator, ["_atomic_status_transition"], all_names=ALL, sql=True, drop_stmt=drop)
+    coop.yieldify(sb.SQLiteBroker, ["retrieve_invocation"], all_names=ALL, sql=True)
+
+def poll_world(kind, copies, two_ids, blocking):
+    reset_uuid()
+    app = mk_app(kind, app_id="c02p" + kind)
+    task = app.task(body)
+    warm_task(task)
+    invs = new_invocations(app, task, 3)
+    ids = [i.invocation_id for i in invs]
+    # queue after registration: [id0, id1, id2]; drain and rebuild the scenario queue
+    while app.broker.retrieve_invocation():
+        pass
+    q = [ids[0]] * copies + ([ids[1]] if two_ids else [])
+    for x in q:
+        app.broker.route_invocation(x)
+    if blocking:
+        app.orchestrator.waiting_for_results(ids[2], [ids[0]])
+    return app, ids
+
+def pollers(kind, copies, two_ids, blocking, nrun, first, slices):
+    global LAST_DETAIL
+    app, ids = poll_world(kind, copies, two_ids, blocking)
+    orch = app.orchestrator
+    ctxs = [runner_ctx(f"r{i+1}") for i in range(nrun)]
+    actors = [coop.Actor(f"p{i}", orch.get_invocations_to_run__gen(1, ctxs[i])) for i in range(nrun)]
+    res = coop.run_schedule(actors, first, slices)
+    got = [[inv.invocation_id for inv in a.outs] for a in actors]
+    errs = [outcome(a) for a in actors]
+    recs = {x: orch.get_invocation_status_record(x) for x in ids[:2]}
+    LAST_DETAIL = {"kind": kind, "copies": copies, "two_ids": two_ids, "blocking": blocking, "yielded": got, "errors": errs,
+                   "records": {k: (v.status.value, v.runner_id) for k, v in recs.items()}, "schedule": res["schedule"]}
+    coop.close_all_connections()
+    if res["deadlock"] or any(e != "ok" for e in errs):
+        return False
+    flat = [x for g in got for x in g]
+    if len(flat) != len(set(flat)):          # same invocation handed to two pollers (or twice)
+        return False
+    for i, g in enumerate(got):
+        if len(g) > 1:
+            return False
+        for x in g:                               # what a poller received is PENDING under that poller
+            if recs[x].status.value != "pending" or recs[x].runner_id != f"r{i+1}":
+                return False
+    # nothing claimable is left behind claimed-by-nobody: every id is PENDING under a poller or still available
+    for x, r in recs.items():
+        if r.status.value == "pending" and x not in flat:
+            return False
+    return True
+'''
+
+POLLF = r'''
+install_poll(__DROP__)
+
+def poll2___KIND_____FIRST_____BLK__(copies: int, two_ids: int, k1: int, k2: int) -> bool:
+    """
+    pre: 1 <= copies <= 3 and 0 <= two_ids <= 1
+    pre: 0 <= k1 <= KMAX and 0 <= k2 <= K2MAX
+    post: _
+    """
+    copies = pick(copies, 1, 3); two_ids = pick(two_ids, 0, 1)
+    with NoTracing():
+        return pollers(["mem", "sqlite"][__KIND__], copies, bool(two_ids), bool(__BLK__), 2, __FIRST__, __SLICES__)
+'''
+
+POLLT = r'''
+def poll2_twin(copies: int, two_ids: int, k1: int) -> bool:
+    """
+    pre: 1 <= copies <= 3 and 0 <= two_ids <= 1
+    pre: 0 <= k1 <= KMAX
+    post: _
+    """
+    copies = pick(copies, 1, 3); two_ids = pick(two_ids, 0, 1)
+    with NoTracing():
+        pollers("sqlite", copies, bool(two_ids), False, 2, 0, [k1])
+    return False
+'''
+
 CLAIM = r'''
 install(__NEVER__)
 
@@ -156,7 +250,36 @@ def run(ctx: Ctx) -> None:
     # --- canary: a lock that never blocks must be refuted within the same bounds (mem only)
     src = base + CLAIM.replace("__NEVER__", "True").replace("__KINDMAX__", "0").replace("KMAX", str(kmax))
     ctx.ch_batch("c02canary", src, [Cond("claim2", "refute", 300)])
+    # --- 2. two pollers over a queue with duplicate ids / blocking-priority entries
+    pk = 45
+    slices = "[k1, k2]" if thorough else "[k1]"
+    k2 = pk if thorough else 0
+    def pollf(drop, kind, first, blk):
+        return (POLLF.replace("__DROP__", drop).replace("__KIND__", str(kind)).replace("__FIRST__", str(first))
+                .replace("__BLK__", str(blk)).replace("__SLICES__", slices).replace("K2MAX", str(k2)).replace("KMAX", str(pk)))
+    psrc = base + POLL
+    conds = []
+    inst = False
+    for kind in (0, 1):
+        for first in (0, 1):
+            for blk in (0, 1):
+                f = pollf("False", kind, first, blk)
+                if inst:
+                    f = f.replace("install_poll(False)\n", "")
+                inst = True
+                psrc += f
+                conds.append(Cond(f"poll2_{kind}_{first}_{blk}", "confirm", 2400 if thorough else 600))
+    psrc += POLLT.replace("KMAX", str(pk))
+    conds.append(Cond("poll2_twin", "refute", 120))
+    ctx.ch_batch("c02poll", psrc, conds)
+    # canary: BEGIN IMMEDIATE dropped from the SQLite transition (AST mutation before yieldify; /repo untouched)
+    csrc = base + POLL + pollf("True", 1, 0, 0)
+    ctx.ch_batch("c02poll_canary", csrc, [Cond("poll2_1_0_0", "refute", 600)])
+    ctx.bounds["pollers"] = (f"2 pollers running the real get_invocations_to_run(1) twins; queue holds 1-3 copies of one id, optionally a second id, "
+                             f"optionally the id also offered through the blocking list; {'2 preemptions' if thorough else '1 preemption'} with slice 0..{pk}")
     ctx.functions_encoded += [
+        "BaseOrchestrator.get_invocations_to_run/get_blocking_invocations_to_run/get_additional_invocations_to_run/reroute_invocations/set_invocation_status",
+        "MemBroker.retrieve_invocation", "SQLiteBroker.retrieve_invocation",
         "MemOrchestrator._atomic_status_transition", "MemOrchestrator._get_invocation_lock",
         "MemOrchestrator._interanl_atomic_status_transition", "SQLiteOrchestrator._atomic_status_transition",
     ]
